@@ -159,6 +159,32 @@ Proof.
   intros r c. unfold stale_by_list. rewrite negb_false_iff. apply list_eqb_N_eq.
 Qed.
 
+(* with the mask of HEAD (dependencies the last run did not read are skipped): exact on the dependencies that were read *)
+Theorem stale_masked_exact : forall unread recorded current,
+  stale_masked unread recorded current = false <->
+  Forall (fun x => fst x = true \/ fst (snd x) = snd (snd x)) (combine unread (combine recorded current)).
+Proof.
+  intros u r c. unfold stale_masked. generalize (combine u (combine r c)). intro l.
+  induction l as [|[b [x y]] l IH]; cbn [existsb fst snd].
+  - split; [constructor|reflexivity].
+  - rewrite orb_false_iff, IH. split.
+    + intros [H1 H2]. constructor; [|exact H2]. cbn. destruct b; [left; reflexivity|].
+      right. cbn in H1. apply negb_false_iff in H1. apply N.eqb_eq. exact H1.
+    + intro H. inversion H as [|? ? H1 H2]; subst. split; [|exact H2]. cbn in H1.
+      destruct H1 as [Hb | Hxy]; [subst b; reflexivity|]. subst y. rewrite N.eqb_refl. destruct b; reflexivity.
+Qed.
+
+(* nothing unread: the masked comparison is the plain one *)
+Theorem stale_masked_all_read : forall recorded current,
+  List.length recorded = List.length current ->
+  stale_masked (repeat false (List.length recorded)) recorded current = stale_by_list recorded current.
+Proof.
+  unfold stale_masked, stale_by_list.
+  induction recorded as [|x r IH]; intros [|y c] Hl; try discriminate; [reflexivity|].
+  cbn [List.length repeat combine existsb fst snd list_eqb]. injection Hl as Hl. rewrite (IH c Hl).
+  destruct (N.eqb x y); reflexivity.
+Qed.
+
 (* one dependency re-evaluated once (from an even version) and the next one 2^sh times: the folded stamp does not
    move, whatever the seed and the shift *)
 Theorem fold_stamp_collides : forall sh s0 a b,
